@@ -192,6 +192,15 @@ Section MatLemmas.
   Qed.
   Lemma zipcons_length : forall (c : list A) M, List.length (zipcons c M) = Nat.min (List.length c) (List.length M).
   Proof. induction c as [|x c IH]; intros [|r M]; simpl; auto. Qed.
+  Lemma nth_firstn_lt : forall n (l : list A) i d, i < n -> nth i (firstn n l) d = nth i l d.
+  Proof.
+    induction n as [|n IH]; intros l i d H; [lia|]. destruct l as [|a l]; [now destruct i|].
+    destruct i; simpl; [reflexivity | apply IH; lia].
+  Qed.
+  Lemma nth_skipn_add : forall n (l : list A) i d, nth i (skipn n l) d = nth (n + i) l d.
+  Proof.
+    induction n as [|n IH]; intros l i d; [reflexivity|]. destruct l as [|a l]; [now destruct i|]. apply IH.
+  Qed.
   Lemma tl_firstn_length : forall m (l : list A), S m <= List.length l -> List.length (tl (firstn (S m) l)) = m.
   Proof. intros m [|a l] H; simpl in *; [lia|]. rewrite firstn_length. lia. Qed.
   Lemma unpack_S : forall m (l : list A),
@@ -225,6 +234,6 @@ Section MatLemmas.
         apply nth_firstn_lt. lia.
       + cbn [nth]. rewrite IH by lia.
         unfold full_entry. cbn [Nat.leb].
-        destruct (i <=? j); cbn [tri_idx]; rewrite nth_skipn; reflexivity.
+        destruct (i <=? j); cbn [tri_idx]; rewrite nth_skipn_add; reflexivity.
   Qed.
 End MatLemmas.
